@@ -389,9 +389,28 @@ def rule_r4(prog, res) -> None:
             res.ok("C04.R4", res.site(ga, "outer product"), "array[b, i, j] = sum_weights1[b, i] * sum_weights2[b, j]")
         else:
             res.violation("C04.R4", ga, first[0], f"outer product is built from {ops}", key_extra="outer-product-operands")
-    autos = [x for x in walk_no_nested(fn) if isinstance(x, ast.If) and unparse(x.test) == "self.auto"]
+    autos = [x for x in walk_no_nested(fn) if isinstance(x, ast.If) and any(isinstance(y, ast.Attribute) and y.attr == "auto" for y in ast.walk(x.test))]
     if len(autos) != 1:
         raise AnalysisError("C04.R4: `if self.auto` block of get_array not recognised")
+    # the flag may be a numpy.bool_ (it is restored from an HDF5 dataset): the test must be its truth value, not an
+    # identity / equality with the literal True (folded for True, False and a truthy / falsy value that is not a bool)
+    flag_txt = next(unparse(y) for y in ast.walk(autos[0].test) if isinstance(y, ast.Attribute) and y.attr == "auto")
+    try:
+        table = {v: bool(ceval(autos[0].test, {flag_txt: v})) for v in (True, False, 1, 0)}
+    except Unknown as err:
+        raise AnalysisError(f"C04.R4: cannot evaluate the autocorrelation test {unparse(autos[0].test)} ({err})")
+    if table == {True: False, False: True, 1: False, 0: True}:
+        raise AnalysisError("C04.R4: the autocorrelation block is the else-arm of its test (idiom not recognised)")
+    if table != {True: True, False: False, 1: True, 0: False}:
+        res.violation(
+            "C04.R4",
+            ga,
+            autos[0],
+            f"the autocorrelation branch is selected by `{unparse(autos[0].test)}`, which is not the truth value of the flag (it is {table[1]} for a truthy value that is not the object True, e.g. the numpy.bool_ "
+            "read back from a file): the lower triangle is then kept and every pair of patches is normalised twice",
+            key_extra="auto-flag-identity-test",
+        )
+        return
     body = autos[0].body
     tri = [c for st in body for c in ast.walk(st) if isinstance(c, ast.Call) and (dotted(c.func) or "").split(".")[-1] in ("triu", "tril")]
     half = [st for st in body if isinstance(st, ast.AugAssign) and isinstance(st.op, (ast.Mult, ast.Div))]
